@@ -184,6 +184,64 @@ theorem badDecl_iff (parameters : List String) (d : Decl) :
             rcases hc e he with hb | hb
             · simp [hb.1, hb.2]
             · simp [hb]
+/-! **`order2=True`** (all second derivatives of the activated variables) -/
+theorem expandAll_mem (P2 : List (String × String)) (o1 : List (String × List String))
+    (e : (String × String) × List String) :
+    e ∈ expandAll P2 o1 ↔ ∃ a ∈ o1, ∃ b ∈ o1, e = ((a.1, b.1), []) ∧
+      ∃ p1 ∈ a.2, ∃ p2 ∈ b.2, (p1, p2) ∈ P2 ∨ (p2, p1) ∈ P2 := by
+  unfold expandAll
+  simp only [List.mem_flatMap, List.mem_filterMap]
+  constructor
+  · rintro ⟨a, ha, b, hb, h⟩
+    split at h
+    · rename_i hc
+      simp only [Option.some.injEq] at h
+      refine ⟨a, ha, b, hb, h.symm, ?_⟩
+      simpa using hc
+    · simp at h
+  · rintro ⟨a, ha, b, hb, rfl, hp⟩
+    refine ⟨a, ha, b, hb, ?_⟩
+    have : (a.2.any fun p1 => b.2.any fun p2 => P2.contains (p1, p2) || P2.contains (p2, p1)) = true := by
+      simpa using hp
+    rw [if_pos this]
+
+/-- the expansion is symmetric: it denotes a set of unordered pairs -/
+theorem expandAll_symm (P2 : List (String × String)) (o1 : List (String × List String)) (u v : String) :
+    ((u, v), []) ∈ expandAll P2 o1 → ((v, u), []) ∈ expandAll P2 o1 := by
+  rw [expandAll_mem, expandAll_mem]
+  rintro ⟨a, ha, b, hb, he, p1, h1, p2, h2, h⟩
+  simp only [Prod.mk.injEq, and_true] at he
+  refine ⟨b, hb, a, ha, by simp [he.1, he.2], p2, h2, p1, h1, h.symm⟩
+
+/-- `order2=True` is never rejected on top of an accepted first-order declaration
+    (the repaired behaviour: it used to expand to *all* parameter pairs of the class and fail the pair check as soon as
+    `order1` selected or renamed parameters) -/
+theorem order2_true_never_rejected (parameters : List String) (P2 : List (String × String))
+    (o1 : List (String × List String)) (h : badDecl parameters ⟨o1, []⟩ = false) :
+    badDecl parameters ⟨o1, expandAll P2 o1⟩ = false := by
+  rw [badDecl_iff] at h ⊢
+  obtain ⟨h1, _⟩ := h
+  refine ⟨h1, fun hne => ⟨?_, ?_, ?_, ?_⟩⟩
+  · rintro rfl
+    exact hne (by simp [expandAll])
+  · intro e he
+    obtain ⟨a, ha, b, hb, rfl, _⟩ := (expandAll_mem _ _ _).mp he
+    exact Or.inl (List.mem_map.mpr ⟨a, ha, rfl⟩)
+  · intro e he
+    obtain ⟨a, ha, b, hb, rfl, _⟩ := (expandAll_mem _ _ _).mp he
+    exact Or.inr rfl
+  · intro e he p hp
+    obtain ⟨a, ha, b, hb, rfl, _⟩ := (expandAll_mem _ _ _).mp he
+    simp at hp
+
+/-- and it contains exactly the diagonal pairs of every variable with a twice-differentiable parameter -/
+theorem expandAll_diagonal (P2 : List (String × String)) (o1 : List (String × List String))
+    (a : String × List String) (ha : a ∈ o1) (p : String) (hp : p ∈ a.2) (h2 : (p, p) ∈ P2) :
+    ((a.1, a.1), []) ∈ expandAll P2 o1 :=
+  (expandAll_mem _ _ _).mpr ⟨a, ha, a, ha, rfl, p, hp, p, hp, Or.inl h2⟩
+
+example : expandAll [("T2", "T2"), ("T1", "T1")] [("x", ["T1"]), ("y", ["T2"])]
+    = [(("x", "x"), []), (("y", "y"), [])] := by decide
 /-! **sequences without a probe or with non-operator items**, in terms of the flattened sequence -/
 mutual
 def flattenItem : SeqItem → List (Option Bool)
